@@ -160,7 +160,7 @@ class Observer:
                 self.hist["cause"] = "WrongPasswordError"
             elif line == "close":
                 self.hist["cause"] = "happy" if self.hist["good"] and not self.hist["bad"] else "LonelyError"
-            elif line == "failinitial":
+            elif line in ("failinitial", "wsfail"):
                 self.hist["cause"] = "ServerConnectionError"
             else:
                 self.hist["cause"] = "?" + line
@@ -240,10 +240,11 @@ class Observer:
                     line = " ".join(parts)
                 self.record(line, self._outcome(r, n_int))
             return r
-        if k in ("open", "drop", "svc_stopped", "fail_initial"):
+        if k in ("open", "drop", "svc_stopped", "fail_initial", "ws_fail"):
             r = W.do(op)
             if r != "noop":
-                line = {"open": "open", "drop": "drop", "svc_stopped": "svcstopped", "fail_initial": "failinitial"}[k]
+                line = {"open": "open", "drop": "drop", "svc_stopped": "svcstopped", "fail_initial": "failinitial",
+                        "ws_fail": "wsfail"}[k]
                 self.record(line, self._outcome(r, n_int))
             return r
         return W.do(op)
@@ -339,6 +340,7 @@ def summarize(W, ob):
     c0 = W.clients[0]
     return dict(events=list(c0.events), internal=list(c0.internal), api_errors=list(c0.api_errors),
                 states=c0.states(), hist=dict(ob.hist), at_closed=ob.at_closed, connected=c0.conn is not None,
+                ever_opened=c0.ever_opened,
                 all_events=[list(c.events) for c in W.clients],
                 all_internal=[list(c.internal) for c in W.clients],
                 server=W.server_facts(), side=c0.side,
@@ -388,6 +390,8 @@ def guided(seed, n_ops, profile, welcome_error=None, finish_run=False):
             choices = []
             if c0.conn is None and c0.svc.started:
                 choices += [["open", 0]] * 6
+                if rng.random() < 0.25:
+                    choices += [["ws_fail", 0]] * 2
             if c0.conn is not None:
                 if c0.conn.c2s:
                     choices += [["c2s", 0]] * 8
